@@ -34,6 +34,12 @@ namespace lib = etl;
     #define VP_CMP_NULL_R_GT 1
     #define VP_CMP_NULL_R_GE 1
 #endif
+#ifdef VH_STD
+    #define VP_VARIANT_REPEAT_CONV 1
+#endif
+#ifndef VP_VARIANT_REPEAT_CONV
+    #define VP_VARIANT_REPEAT_CONV 0
+#endif
 #ifndef VP_CMP_NULL_LE
     #define VP_CMP_NULL_LE 0
 #endif
@@ -61,6 +67,7 @@ namespace {
 
 constexpr int NULLV = -99;
 constexpr int NA    = -1;
+constexpr int ILL   = -98; // type-based observer that is ill-formed for a repeated alternative type
 
 // ---- type tags --------------------------------------------------------------------------------
 template <typename T>
@@ -291,6 +298,10 @@ struct VariantKit {
     static constexpr bool tracked = (std::is_same_v<Ts, Tracked> || ...);
     template <size_t I>
     using alt = std::tuple_element_t<I, std::tuple<Ts...>>;
+    // type-based forms are well-formed only for an alternative type that occurs exactly once
+    template <size_t I>
+    static constexpr bool uniq = ((std::is_same_v<alt<I>, Ts> ? 1 : 0) + ...) == 1;
+    static constexpr bool all_unique = []<size_t... I>(std::index_sequence<I...>) { return (uniq<I> && ...); }(std::make_index_sequence<sizeof...(Ts)>{});
     static json alts() { return json::array({tag<Ts>::name...}); }
 };
 template <typename T, typename E>
@@ -451,11 +462,16 @@ struct Runner {
                     using A            = typename K::template alt<J>;
                     auto* p            = lib::get_if<J>(&v);
                     auto const* pc     = lib::get_if<J>(&cv);
-                    auto* pt           = lib::get_if<A>(&v);
                     gi.push_back(p ? vo(*p) : NULLV);
                     gic.push_back(pc ? vo(*pc) : NULLV);
-                    git.push_back(pt ? vo(*pt) : NULLV);
-                    holds.push_back(lib::holds_alternative<A>(cv) ? 1 : 0);
+                    if constexpr (K::template uniq<J>) {
+                        auto* pt = lib::get_if<A>(&v);
+                        git.push_back(pt ? vo(*pt) : NULLV);
+                        holds.push_back(lib::holds_alternative<A>(cv) ? 1 : 0);
+                    } else {
+                        git.push_back(ILL);
+                        holds.push_back(ILL);
+                    }
                 };
                 (one(std::integral_constant<size_t, I>{}), ...);
             }(std::make_index_sequence<N>{});
@@ -832,22 +848,36 @@ struct Runner {
                 new (&v) V();
             } else if (op == "ctor_value" || op == "assign_value") {
                 why = op + ":" + xt;
-                with_type(xt, [&](auto tt) { value_op<typename decltype(tt)::type>(op == "ctor_value", v, xv, xm, ok); });
+                // with a repeated alternative type even *asking* whether the converting constructor is viable may be a
+                // hard error (measured by a compile probe)
+                if constexpr (K::all_unique || VP_VARIANT_REPEAT_CONV) {
+                    with_type(xt, [&](auto tt) { value_op<typename decltype(tt)::type>(op == "ctor_value", v, xv, xm, ok); });
+                } else { ok = false; }
             } else if (op == "ctor_inplace" || op == "ctor_inplace_t" || op == "emplace" || op == "emplace_t") {
                 with_index<N>((size_t)xi, [&](auto Ic) {
                     constexpr size_t I = decltype(Ic)::value;
                     using A            = typename K::template alt<I>;
+                    constexpr bool U   = K::template uniq<I>;
+                    bool typed         = op == "ctor_inplace_t" || op == "emplace_t";
+                    if (typed && !U) {
+                        ok = false;
+                        return;
+                    }
                     Guard g(*this);
                     if constexpr (std::is_same_v<A, Mono>) {
                         if (op == "ctor_inplace") { v.~V(); new (&v) V(lib::in_place_index<I>); }
-                        else if (op == "ctor_inplace_t") { v.~V(); new (&v) V(lib::in_place_type<A>); }
                         else if (op == "emplace") { ret.push_back(vo(v.template emplace<I>())); }
-                        else { ret.push_back(vo(v.template emplace<A>())); }
+                        else if constexpr (U) {
+                            if (op == "ctor_inplace_t") { v.~V(); new (&v) V(lib::in_place_type<A>); }
+                            else { ret.push_back(vo(v.template emplace<A>())); }
+                        }
                     } else {
                         if (op == "ctor_inplace") { v.~V(); new (&v) V(lib::in_place_index<I>, arg<A>(xv)); }
-                        else if (op == "ctor_inplace_t") { v.~V(); new (&v) V(lib::in_place_type<A>, arg<A>(xv)); }
                         else if (op == "emplace") { ret.push_back(vo(v.template emplace<I>(arg<A>(xv)))); }
-                        else { ret.push_back(vo(v.template emplace<A>(arg<A>(xv)))); }
+                        else if constexpr (U) {
+                            if (op == "ctor_inplace_t") { v.~V(); new (&v) V(lib::in_place_type<A>, arg<A>(xv)); }
+                            else { ret.push_back(vo(v.template emplace<A>(arg<A>(xv)))); }
+                        }
                     }
                 });
             } else if (op == "visit_mv") {
@@ -1217,6 +1247,12 @@ int main(int argc, char** argv)
     if (inst == "exp_ii") { return run_one<ExpectedKit<int, int>>(inst, script); }
     if (inst == "exp_ti") { return run_one<ExpectedKit<Tracked, int>>(inst, script); }
     if (inst == "exp_it") { return run_one<ExpectedKit<int, Tracked>>(inst, script); }
+#endif
+#if !defined(VH_GROUP) || VH_GROUP == 5
+    // repeated alternative types: assignment / swap between DIFFERENT indices of the SAME type must change the index
+    if (inst == "var_tt") { return run_one<VariantKit<Tracked, Tracked>>(inst, script); }
+    if (inst == "var_iit") { return run_one<VariantKit<int, int, Tracked>>(inst, script); }
+    if (inst == "exp_tt") { return run_one<ExpectedKit<Tracked, Tracked>>(inst, script); }
 #endif
     std::fprintf(stderr, "instantiation %s not compiled in\n", inst.c_str());
     return 2;
